@@ -137,7 +137,12 @@ def _string_to_number(text: str) -> Union[int, float]:
         return 0
     if _RADIX_LITERAL.match(s):
         n = int(s[2:], {"x": 16, "o": 8, "b": 2}[s[1].lower()])
-        return n if n < 2**53 else float(n)
+        if n < 2**53:
+            return n
+        try:
+            return float(n)
+        except OverflowError:
+            return float("inf")
     if not _DECIMAL_LITERAL.match(s):
         return float("nan")
     if s.endswith("Infinity"):
